@@ -3,10 +3,46 @@ LEAN_MODULES = ["Sif.Props.C05"]
 EXTRACT = [{"group": "bridge", "passes": ["bridgefacts"]}]
 FAMILIES = [
     {"name": "bridge_oracle", "family": "bridge_oracle", "group": "bridge", "driver": "drv_bridge",
-     "n_quick": 150, "n_thorough": 1500, "seeds_thorough": 3},
+     "n_quick": 300, "n_thorough": 2000, "seeds_thorough": 3},
 ]
-RULE = ""
-TRUSTED_BASE = []
-ASSUMPTIONS = []
-UNPROVED = []
-MANIFEST = {"text": "", "note": "", "technique": "Lean 4 proof + differential correspondence (model vs real Go)", "design_ref": "4/C05"}
+RULE = ("bridge_oracle: L1 histories on the real oracle/ethbridge keepers of a full SifchainApp with a real staking keeper: 1-8 validators "
+        "with chosen powers (ties, zero power, boundary vectors 10p-7t in {-1,0,1,..}, totals up to 2^48), bonded flags, whitelists with "
+        "duplicates / non-validators, admin add/remove and staking changes interleaved with claims, 1-3 events with 1-3 contents each, late and "
+        "duplicate claims; every history executed 4x in-process (Go map order re-rolled). Directed: the F2 shape, de-whitelisted claimants on both "
+        "sides, threshold boundaries, zero total power. After every message the canonical state (whitelist, prophecies with both claim maps, peggy "
+        "list, pause, fee receiver, blacklist, all balances, supply) is compared with the Lean model; chk lines evaluate Spec.C05.prophecyWF / "
+        "thresholdMet / finalStable on the implementation's dumps. non-trivial = distinct accepted message, or a chk on a non-pending prophecy")
+TRUSTED_BASE = [
+    "Lean 4.33.0 kernel; axioms propext, Classical.choice, Quot.sound (audited per theorem on every run)",
+    "hand-written Lean model of x/oracle and x/ethbridge (Sif/Model/Oracle.lean, EthBridge.lean, BridgeBank.lean), tied by the regenerated facts "
+    "of Sif/Generated/BridgeConsts.lean (threshold constant and its use in app.go, comparison operators, guard and error order of ProcessClaim, "
+    "whitelist guard of the tally) and by differential execution against the real keepers",
+    "x/staking is environment: the validator set (operator, PotentialConsensusPower, IsBonded) is an input of every step; GetBondedValidatorsByPower "
+    "is assumed to return exactly the bonded validators (<= MaxValidators = 100) with distinct operator addresses",
+    "json.Marshal/Unmarshal of OracleClaimContent is injective and round-trips on (receiver, amount, symbol, token contract, claim type)",
+    "IEEE-754: F64.sigDiv is the correctly rounded double quotient for quotients in [1/2,1); Go converts integers below 2^53 exactly",
+    "Go harness, line protocol, drv_bridge parser; cosmos-sdk x/bank, x/auth, store (modelled, exercised by the correspondence)",
+]
+ASSUMPTIONS = [
+    "total whitelisted bonded power < 2^48 whole rowan (DESIGN section 5); no int64 overflow in the power sums",
+    "validators known to staking have distinct operator addresses (ValsWF); every stored tally is well-formed (OStateWF, proved invariant from the empty store)",
+    "the iteration order of the Go map ClaimValidators is some permutation of its entries (hypothesis `ord l ~ l`, discharged for every such order)",
+]
+UNPROVED = [
+    "float_test_matches_integer_Statement: the float64 threshold test equals the integer test for ALL totals — only the envelope t < 2^48 is proved "
+    "(float_test_matches_integer_partial); that F64.sigDiv is IEEE-754 division outside the binade [1/2,1) is not formalised",
+    "GetBondedValidatorsByPower truncation at MaxValidators and int64 overflow of power sums are outside the model",
+]
+MANIFEST = {
+    "text": "Lean 4 theorems over a model of ProcessClaim / FindHighestClaim / processCompletion and the ethbridge handlers: rejection of non-whitelisted, "
+            "unbonded and duplicate claimants; well-formed tallies as an invariant; SUCCESS implies 10*support >= 7*total > 0 over currently whitelisted bonded "
+            "validators with identical content; finality for single claims and for arbitrary histories (status, final claim, tally, every balance); "
+            "independence of the Go map iteration order for processCompletion, ProcessClaim and every delivered message. Tied to the code by regenerated "
+            "facts and by differential execution of generated histories on the real keepers (4 in-process repetitions per history), the theorems' own "
+            "predicates being evaluated on the implementation's dumps.",
+    "note": "Defect F2 (claims of de-whitelisted validators counted) reproduced by the check, repaired by fixes/F2.diff; model and theorems are about the "
+            "repaired code. The float64 test is proved equal to the integer test only for totals < 2^48 (partial). Trusted: kernel, hand-written model + "
+            "correspondence, staking as environment, JSON encoding of claim contents, IEEE-754 division model.",
+    "technique": "Lean 4 proof + regenerated facts + differential correspondence (model vs real Go keepers)",
+    "design_ref": "4/C05",
+}
